@@ -30,6 +30,15 @@ def run(c):
             f.write(vf.gv(["gen-programs", kind, c.seed, count] + list(extra)).stdout)
     tr, summ = os.path.join(d, "trace.ndjson"), os.path.join(d, "summary.json")
     vf.gv(["record-ctx", st["out"], tr, summ, 40 if c.quick else 10, progs], timeout=3000)
+    # all hosts <= 5 nodes, ill typed ones included (rejection part-way through a nested scope must restore the contexts too)
+    st5 = vf.tlc_generate("MC_Programs", pc.prog_cfg(5, ["sum", "quot", "lt"]), "prog-s5", timeout=6000, workers=14)
+    c.add_tlc(st5, "all host programs <= 5 nodes, well typed or not; generation")
+    tr5, summ5 = os.path.join(d, "trace5.ndjson"), os.path.join(d, "summary5.json")
+    vf.gv(["record-ctx", st5["out"], tr5, summ5, 1], timeout=3000)
+    open(tr, "a").write(open(tr5).read())
+    s5 = json.load(open(summ5))
+    c.cov["contexts_all_small_hosts"] = s5
+    c.cov["replayed_cases"] += s5["events"]
     s = json.load(open(summ))
     c.cov["contexts"] = s
     c.cov["inconclusive"] += s["crashes"]
